@@ -9,6 +9,7 @@ use crate::c12::init_machine;
 use crate::fw::*;
 use crate::ilgen::{self, GenOpts};
 use crate::locgraph::loc_str;
+use crate::refeval::Bv;
 use crate::refinterp::StepOut;
 use falcon::analysis::constants::{constants, Constants};
 use falcon::il::{Expression, Function, FunctionLocation as Loc, Operation, ProgramLocation};
@@ -60,6 +61,7 @@ impl C13 {
         };
         let mut reported = 0u64;
         let mut derived = 0u64;
+        let mut calls_returned = 0u64;
         for _run in 0..6 {
             let mut m = match init_machine(rng, g, false) {
                 Some(m) => m,
@@ -134,6 +136,29 @@ impl C13 {
                 }
                 match m.step(f) {
                     StepOut::Moved => {}
+                    StepOut::Branched(_) => {
+                        // a Branch with more of its block behind it is a call: the callee changes whatever it likes
+                        // (here: up to three scalars of the pool, values only - what "this function has assigned" stays
+                        // as it was) and returns to the next instruction
+                        let next = match &l {
+                            Loc::Instruction(b, i) => f.block(*b).ok().and_then(|blk| {
+                                let pos = blk.instructions().iter().position(|x| x.index() == *i)?;
+                                blk.instructions().get(pos + 1).map(|n| Loc::Instruction(*b, n.index()))
+                            }),
+                            _ => None,
+                        };
+                        match next {
+                            Some(n) => {
+                                for _ in 0..rng.below(4) {
+                                    let s = &g.pool[rng.usize(g.pool.len())];
+                                    m.scalars.insert((s.name().to_string(), None), Bv::new(rng.corner_big(s.bits()), s.bits()));
+                                }
+                                m.continue_at(n);
+                                calls_returned += 1;
+                            }
+                            None => break,
+                        }
+                    }
                     _ => break,
                 }
             }
@@ -149,6 +174,7 @@ impl C13 {
         ));
         ctx.count_n("reported_constants_checked", reported);
         ctx.count_n("derived_constants_checked", derived);
+        ctx.count_n("calls_returned_from", calls_returned);
         if reported > 0 && ctx.want_sample() {
             ctx.sample(fj());
         }
@@ -192,6 +218,7 @@ impl Check for C13 {
             def_before_use,
             intrinsics: rng.bool(),
             indirect_branches: rng.chance(1, 4),
+            calls: rng.chance(1, 3),
             memory: true,
             expr_depth: 2,
             ..GenOpts::default()
